@@ -61,7 +61,9 @@ class _Dec:
         return SBytes([P.xor8(x, self.k) for x in (ct.items if type(ct) is SBytes else list(ct))])._maybe_concrete()
 
 
-def tamper_case(mode, bs, macsize, nblocks, for_c38=False):
+def tamper_case(mode, bs, macsize, nblocks, for_c38=False, out=None):
+    """out: how the OUTBOUND direction of the same packetizer is keyed (None / "classic" / "etm" / "aead"); what is
+    negotiated for sending must not influence how received packets are authenticated"""
     def fn(ctx):
         from paramiko.ssh_exception import SSHException
         ctx._n = 0
@@ -78,6 +80,10 @@ def tamper_case(mode, bs, macsize, nblocks, for_c38=False):
         dec = _Dec(ctx, ks[0])
         with P.pkt_env(ctx, mac):
             rx._Packetizer__sequence_number_in = seq
+            if out == "aead":
+                rx.set_outbound_cipher(_Dec(ctx, 0x5a), bs, None, 16, b"ok", aead=True, iv_out=iv)
+            elif out is not None:
+                rx.set_outbound_cipher(P.XorStream([0x11, 0x22, 0x33]), bs, "sha", 20, b"ok", etm=(out == "etm"))
             if mode == "aead":
                 rx.set_inbound_cipher(dec, bs, None, 16, key, aead=True, iv_in=iv)
             else:
@@ -132,7 +138,7 @@ def tamper_case(mode, bs, macsize, nblocks, for_c38=False):
             want = plain[1:ps - pad] if not ctx.symbolic else plain[1:lift(ps) - pad]      # the slice the RFC framing defines
             ctx.prove(lift(cmd) == want[0] if len(want) else False, "delivered-type-is-cut-from-the-authenticated-bytes")
             ctx.prove(P.beq(payload, want[1:]), "delivered-payload-is-cut-from-the-authenticated-bytes")
-    name = "%s-bs%d-mac%d-%dblocks" % (mode, bs, macsize, nblocks)
+    name = "%s-bs%d-mac%d-%dblocks" % (mode, bs, macsize, nblocks) + ("-sending-%s" % out if out else "")
     if for_c38:
         return Case("packet-layer-" + name, fn, ["rejected-or-waiting-for-more-data", "failure-is-an-ssh-exception-or-none"],
                     {"mode": mode, "wire": "%d arbitrary symbolic bytes, MAC/tag check may succeed" % (nblocks * bs)},
@@ -154,4 +160,10 @@ def cases(tier):
         for bs, ms in ((8, 12), (8, 20), (16, 32), (16, 64)) if not q else ((8, 12), (16, 32)):
             cs.append(tamper_case(mode, bs, ms, 2 if q else 3))
     cs.append(tamper_case("aead", 16, 16, 2 if q else 3))
+    # the two directions are negotiated independently: receive one way while sending another
+    cs.append(tamper_case("classic", 8, 12, 2, out="etm"))
+    cs.append(tamper_case("etm", 8, 12, 2, out="classic"))
+    cs.append(tamper_case("etm", 8, 12, 2, out="etm"))
+    cs.append(tamper_case("classic", 16, 32, 2, out="aead"))
+    cs.append(tamper_case("aead", 16, 16, 2, out="etm"))
     return cs
